@@ -60,6 +60,8 @@ Fixpoint resolve (c : chain) (n : string) : option string :=
       match g_bind f rest n with
       | Some p => Some p
       | None =>
+          if is_module f then None                                (* `self.parent is None or self.is_module`: raise *)
+          else
           match rest with
           | [] => None                                           (* self.parent is None: raise *)
           | g :: _ => if String.eqb n (fname g) && negb (is_module g)
@@ -74,33 +76,33 @@ Definition canonical (c : chain) (n : string) : string :=
   match resolve c n with Some p => p | None => n end.
 
 (* The same walk, recording whether the frame that answered is one CPython consults from the innermost scope:
-   TOk, or a class body CPython skips (TClassLeak), or a module beyond the nearest one (TPkgLeak). *)
-Inductive tag := TOk | TClassLeak | TPkgLeak.
-Fixpoint resolve_tagged (inner pastmod : bool) (c : chain) (n : string) : option (string * tag) :=
+   TOk, or a class body CPython skips (TClassLeak).  (The walk ends at the nearest module since the repair of C04-F2.) *)
+Inductive tag := TOk | TClassLeak.
+Fixpoint resolve_tagged (inner : bool) (c : chain) (n : string) : option (string * tag) :=
   match c with
   | [] => None
   | f :: rest =>
       match g_bind f rest n with
-      | Some p => Some (p, if pastmod then TPkgLeak else if is_class f && negb inner then TClassLeak else TOk)
+      | Some p => Some (p, if is_class f && negb inner then TClassLeak else TOk)
       | None =>
+          if is_module f then None
+          else
           match rest with
           | [] => None
           | g :: r => if String.eqb n (fname g) && negb (is_module g)
                       then Some (path_of rest,
-                                 if pastmod then TPkgLeak
-                                 else match r with
-                                      | h :: _ => if is_class h then TClassLeak else TOk
-                                      | [] => TClassLeak
-                                      end)
-                      else resolve_tagged false (pastmod || is_module f) rest n
+                                 match r with
+                                 | h :: _ => if is_class h then TClassLeak else TOk
+                                 | [] => TClassLeak
+                                 end)
+                      else resolve_tagged false rest n
           end
       end
   end.
 
-Definition tag_of (c : chain) (n : string) : option tag := option_map snd (resolve_tagged true false c n).
-(* known-gap predicates (decidable) *)
+Definition tag_of (c : chain) (n : string) : option tag := option_map snd (resolve_tagged true c n).
+(* known-gap predicate (decidable) *)
 Definition gap_class (c : chain) (n : string) : bool := match tag_of c n with Some TClassLeak => true | _ => false end.
-Definition gap_package (c : chain) (n : string) : bool := match tag_of c n with Some TPkgLeak => true | _ => false end.
 
 (* ------------------------------------------------------------------------------------------------ CPython *)
 (* what a scope binds: parameters of a function are locals of every function (written <class path>(<name>), the only
@@ -161,8 +163,11 @@ Inductive justified : chain -> string -> string -> Prop :=
 | JOwnName : forall pre g post n, fname g = n -> is_module g = false ->
     justified (pre ++ g :: post) n (path_of (g :: post)).
 
+(* the frames the walk can reach: up to and including the nearest module *)
+Fixpoint in_scope_frames (c : chain) : chain :=
+  match c with [] => [] | f :: rest => if is_module f then [f] else f :: in_scope_frames rest end.
 Definition unbound (c : chain) (n : string) : Prop :=
-  forall f, In f c -> lookup n (fmembers f) = None.
+  forall f, In f (in_scope_frames c) -> lookup n (fmembers f) = None.
 
 
 (* ------------------------------------------------------------------------------------------------ attribute chains *)
@@ -280,7 +285,7 @@ Definition dec_frame (s : sexp) : option frame :=
   | _ => None
   end.
 Definition enc_tag (t : option tag) : sexp :=
-  SStr (match t with None => "unresolved" | Some TOk => "ok" | Some TClassLeak => "class-leak" | Some TPkgLeak => "package-leak" end).
+  SStr (match t with None => "unresolved" | Some TOk => "ok" | Some TClassLeak => "class-leak" end).
 Fixpoint dec_anode (segs : list string) (acc : anode) : anode :=
   match segs with [] => acc | s :: r => dec_anode r (AAttr acc s) end.
 Definition enc_from (r : from_result) : sexp :=
@@ -297,7 +302,7 @@ Definition run_C04 (s : sexp) : sexp :=
       | Some c', Some l =>
           SList [of_opt SStr (resolve c' n); enc_tag (tag_of c' n); of_opt SStr (py_lookup c' n);
                  of_bool (wf_chain c'); SStr (canonical c' n); SStr (py_canonical l c' n);
-                 of_bool (gap_class c' n); of_bool (gap_package c' n); of_bool (gap_local l c' n)]
+                 of_bool (gap_class c' n); of_bool (gap_local l c' n)]
       | _, _ => bad_input
       end
   | SList [SStr "attr"; c; SStr root; segs] =>
